@@ -157,11 +157,13 @@ def unit_sets(tier):
         yield "tree(MEMALPHA,3)", [(b, True) for b in B.tree(mem_alpha, 3, max_need=3)], cfgs()
         sw = list(families.sandwich_family())
         yield "sandwich-family/2", [(b, True) for b in sw[::2]], [("-greedy",), ("-no-simplification", "-greedy")]
+        yield "vocabulary-family", [(b, False) for b in families.vocabulary_family()], cfgs()
     else:
         yield "sandwich-family", [(b, True) for b in families.sandwich_family()], cfgs()
         yield "mem-family(2)", [(b, True) for b in families.mem_family(2)], cfgs()
         yield "mem-family(3)", [(b, True) for b in families.mem_family(3)], cfgs()
         yield "tree(MEMALPHA,4)", [(b, True) for b in B.tree(mem_alpha, 4, max_need=3)], cfgs()
+        yield "vocabulary-family", [(b, False) for b in families.vocabulary_family()], cfgs()
 
 
 def main(tier, seed, only=None):
